@@ -1276,6 +1276,7 @@ func (a *Allocator) CreatePool(createInfo PoolCreateInfo) (*Pool, common.VkResul
 		parentAllocator: a,
 		logger:          a.logger,
 	}
+	pool.dedicatedAllocations.Init(a.useMutex)
 	blockSize := preferredBlockSize
 	if createInfo.BlockSize != 0 {
 		blockSize = createInfo.BlockSize
